@@ -29,6 +29,19 @@ theorem reclassify_is_model [DecidableEq α] (null : α) (e : DExt κ α)
       errV ((reclassifyK null e.shp ks oc).map toDict) :=
   Src.reclassify_eq null e h3 h5 hpos hsl ks hks oc
 
+/-- **the insertion `_insert(dim, other)` applies to a key, as written in dcmmeta.py**: `_insert_slice` along the slice axis of
+    `self`, else `_insert_non_slice` for another spatial axis, `_insert_sample` for time (3) and vector (4), nothing otherwise —
+    the case distinction of the model's `mergeKey` -/
+theorem insert_dispatch_is_model [DecidableEq α] (null : α) (shape : List Nat) (nsl : Option Nat) (d : KeyDict α) (sd : Option Nat)
+    (content : List String) (oshape : List Nat) (onsl : Option Nat) (ovals : List α) (ocls : Option Cls) (dim : Nat) :
+    Py.insert_dispatch null shape nsl d sd content oshape onsl ovals ocls dim =
+      if some dim = sd then Py.insert_slice null shape nsl d sd content oshape onsl ovals ocls
+      else if dim < 3 then Py.insert_non_slice null shape nsl d sd content oshape onsl ovals ocls
+      else if dim = 3 then Py.insert_sample null shape nsl d sd content oshape onsl ovals ocls "time"
+      else if dim = 4 then Py.insert_sample null shape nsl d sd content oshape onsl ovals ocls "vector"
+      else .ok d :=
+  Src.insert_dispatch_eq null shape nsl d sd content oshape onsl ovals ocls dim
+
 /-- **`_insert_slice` as written in dcmmeta.py is the model's `insertSliceK`** on the dictionaries of one key: constants that differ
     become per-slice values of the first base present (time, vector, global), time slices are appended, everything else goes
     through global slices with the new slice interleaved into every volume -/
